@@ -19,7 +19,11 @@ def setup(c):
         "state). Families: (a1) two transactions, 6 key-set shapes x all start/commit orders over 1..4 incl. ties x {1,2} slots, all "
         "interleavings; (a2) seeded 3-transaction (thorough: +4-transaction) configurations over a 5-key pool with 1/2/4 slots, ALL "
         "interleavings of acquire/release/wake-up re-acquire each; (a3) seeded random walks over critical-section steps with late "
-        "arrivals, with and without recycling (minute-scale timestamps, 8 keys in 1-2 slots so that count >= latchListCount); "
+        "arrivals, with and without recycling (minute-scale timestamps, 8 keys in 1-2 slots so that count >= latchListCount), and a "
+        "'skew' family: one slot for 8 keys, start/commit/recycle timestamps drawn independently from a 6-minute window (commits "
+        "physically ahead of later recycle timestamps and of requesters' start ts, unlocks out of commit-ts order, recycles in between); "
+        "staleness oracle under recycling: every released (key, commitTS) is remembered with whether a recycle timestamp seen since could "
+        "have expired it; a grant or an unflagged wake-up although an unexpirable commit ts above the start ts was published = FAIL stale-missed; "
         "(b) seeded stress through the real LatchesScheduler goroutine with a holder table (exclusivity), stale soundness and a "
         "30 s termination bound (support only). distinct = distinct op lines; a case = one reset..end sequence")
     c.assumptions = [
@@ -62,6 +66,10 @@ def property_cases(c, ops_file, impl_file, hbin, exe, limit=3, budget=120):
         if det is None:
             c.problems.append(Problem("property", "property oracle fails on the implementation (not reproduced on re-run)", cur, impl[bad[0]]))
             continue
+        nochk = [o for o in cur if o != "chk"]
+        d0 = _prop_fails(c, nochk, hbin, exe) if len(nochk) < len(cur) else None
+        if d0:
+            cur, det = nochk, d0
         n, runs = 2, 0
         while len(cur) >= 2 and runs < budget:
             chunk = max(1, len(cur) // n)
